@@ -12,7 +12,7 @@ FACETS = {
     "C05": "VRK",
     "C06": "TN",
     "C07": "CSEVRGFK",
-    "C08": "VRFK",
+    "C08": "VRFSK",
     "C13": "VRFK",
     "C10": "VRFK",
     "C19": "VRFK",
